@@ -214,8 +214,13 @@ func (w *c14World) alter(g, q *vDatagram, mm map[string]string, from *vNode) (da
 			idx = t.RemoteIndex
 		}
 	}
-	if mm["ctr"] == "fresh" {
+	switch mm["ctr"] {
+	case "fresh":
 		ctr += 1000
+	case "ceiling":
+		ctr = ^uint64(0) - (1 << 40) // the first counter a sender must never use
+	case "max":
+		ctr = ^uint64(0)
 	}
 	hb := header.Encode(make([]byte, header.Len), ver, typ, sub, idx, ctr)
 	if mm["resv"] == "flipped" {
